@@ -575,7 +575,7 @@ func runCase(c *hx.Ctx) {
 	}
 }
 
-const quickCases, thoroughCases = 2000, 30000
+const quickCases, thoroughCases = 2000, 12000
 
 func main() {
 	if ServeIfWorker(serve) {
